@@ -16,8 +16,10 @@ class Item:
     """One item extracted from /repo.  path: header list for rsx.find_item.  edits: rsx edits (anchored in the
     pinned text).  features: cfg(feature) set for T10 (None = leave cfg attributes to T5)."""
 
-    def __init__(self, name, src, path, edits=(), strip_attrs=True, features=None, root=None, wrap=None, block=None):
+    def __init__(self, name, src, path, edits=(), strip_attrs=True, features=None, root=None, wrap=None, block=None, auto=()):
         self.name, self.src, self.path, self.edits = name, src, path, list(edits)
+        # auto: current-anchored rewriting rules of rsx.auto_ops ('fmt' = T14, 'strlit' = T15)
+        self.auto = tuple(auto)
         self.strip_attrs, self.features, self.root = strip_attrs, features, root
         # wrap: (prefix, suffix) ghost/header text put around the extracted text (T2 re-homing / T11 block lifting)
         # block: (anchor_after, anchor_before) - T11: the statements strictly between two structural anchors of the item
@@ -96,6 +98,7 @@ def build(unit, extra_edits=None):
     if unit.prelude:
         parts.append('// ==== unit prelude (ghost)\n' + unit.prelude + '\n')
     outlined_bodies = {}
+    fmt_sites = []
     for it in unit.items:
         try:
             cur = current_item_text(it)
@@ -108,9 +111,13 @@ def build(unit, extra_edits=None):
             raise Undecided('unit %s: no pinned text for %s (run ./check --rebaseline)' % (unit.name, it.name))
         edits = it.edits + list((extra_edits or {}).get(it.name, []))
         try:
-            ann, recs = rsx.apply(pinned, cur, edits, strip_attrs=it.strip_attrs, cfg_features=it.features)
+            ann, recs = rsx.apply(pinned, cur, edits, strip_attrs=it.strip_attrs, cfg_features=it.features,
+                                  auto=getattr(it, 'auto', ()), auto_prefix=it.name)
         except (rsx.AnchorLost, rsx.ItemNotFound, rsx.LexError) as ex:
             raise Undecided('unit %s: item %s: %s' % (unit.name, it.name, ex))
+        for r in recs:
+            if r.get('fmt_site'):
+                fmt_sites.append(r['fmt_site'])
         if rsx.erase(ann, recs) != cur:
             raise Undecided('unit %s: item %s: erasure check failed (machinery fault)' % (unit.name, it.name))
         for r in recs:
@@ -139,6 +146,19 @@ def build(unit, extra_edits=None):
             body = 'unimplemented!() /* original text: ' + outlined_bodies[cid].replace('*/', '* /') + ' */'
         parts.append('#[verifier::external_body]\n' + decl.rstrip() + '\n{ ' + body + ' }\n')
         prov['outlines'].append({'id': cid, 'decl': decl, 'body': outlined_bodies[cid], 'compiled': opts.get('compile', True)})
+    for site in fmt_sites:
+        # T14: contract generated from the format literal found in the CURRENT source text
+        terms = []
+        for k, piece in enumerate(site['pieces']):
+            if piece != '':
+                terms.append('"%s"@' % piece)
+            if k < site['nargs']:
+                terms.append('a%d.tv()' % k)
+        parts.append('// ==== format! site %s (T14): literal %s; contract generated from the literal (std::fmt `{}` semantics ASSUMED)\n' % (site['name'], site['literal']))
+        parts.append('#[verifier::external_body]\nfn %s%s(%s) -> (r: String)\n    ensures r@ == %s\n{ unimplemented!() }\n' % (
+            site['name'], ('<' + ', '.join('A%d: Txt' % k for k in range(site['nargs'])) + '>') if site['nargs'] else '',
+            ', '.join('a%d: A%d' % (k, k) for k in range(site['nargs'])), ' + '.join(terms) if terms else 'Seq::<char>::empty()'))
+        prov['outlines'].append({'id': site['name'], 'decl': 'format! site, literal ' + site['literal'], 'body': 'format!(%s, ..)' % site['literal'], 'compiled': False})
     if unit.epilogue:
         parts.append('// ==== unit epilogue (ghost lemmas)\n' + unit.epilogue + '\n')
     parts.append('} // verus!\nfn main() {}\n')
